@@ -73,9 +73,9 @@ FILTERS = [
 
 
 def run_case(ctx, n):
-    from beancount.core import data, interpolate
-    from beancount.core.compare import hash_entry
-    from beancount.parser import options as bopts
+    """One connection, several related clause sets one after the other (the same OPEN/CLOSE dates with and without
+    CLEAR, then other subsets): the verdict on each statement must not depend on the statements executed before."""
+    from beancount.core import data
     rng = ctx.rng('case', n)
     led = ledgers.gen_ledger(rng, ntxn=rng.randint(4, ctx.pick(16, 50)))
     entries, errors, options = led.loaded
@@ -83,25 +83,43 @@ def run_case(ctx, n):
     txns = [e for e in entries if isinstance(e, data.Transaction)]
     if not txns:
         return
-    orig_ids = {hash_entry(e) for e in entries}
     d, e = pick_dates(rng, [t.date for t in txns])
     use_open = rng.random() < 0.7
     close_kind = rng.choice(['none', 'date', 'date', 'bare'])
     clear = rng.random() < 0.5
     if not use_open and close_kind == 'none' and not clear:
         clear = True
+    variants = [(use_open, close_kind, clear)]
+    if use_open or close_kind != 'none':
+        variants.append((use_open, close_kind, not clear))           # same period, other CLEAR flag
+    variants.append((rng.random() < 0.5, rng.choice(['none', 'date', 'bare']), rng.random() < 0.5))
+    if rng.random() < 0.5:
+        variants.append((use_open, close_kind, clear))                # and the first one again
+    for vi, (uo, ck, cl) in enumerate(variants):
+        if not uo and ck == 'none' and not cl:
+            cl = True
+        if check_clauses(ctx, rng, n, vi, led, conn, entries, options, txns, d, e, uo, ck, cl) is False:
+            return
+        ctx.count('obs.statements_on_shared_connection' if vi else 'obs.first_statements')
+
+
+def check_clauses(ctx, rng, n, vi, led, conn, entries, options, txns, d, e, use_open, close_kind, clear):
+    from beancount.core import data, interpolate
+    from beancount.core.compare import hash_entry
+    from beancount.parser import options as bopts
+    orig_ids = {hash_entry(x) for x in entries}
     open_ = d if use_open else None
     close = {'none': None, 'date': e, 'bare': True}[close_kind]
     clauses = clause_text(open_, close, clear)
     before = digest_entries(entries)
     plain_before = conn.execute('SELECT id, account, position FROM #postings').fetchall()
     text = f'SELECT entry, id, account, position, date, flag, weight FROM {clauses}'
-    case = {'replay': ['case', n], 'statement': text, 'ledger': led.text}
+    case = {'replay': ['case', n], 'statement': text, 'variant': vi, 'ledger': led.text}
     try:
         rows = conn.execute(text).fetchall()
     except Exception as exc:  # noqa: BLE001
         ctx.violation(f'c13.clauses_rejected.{monitors.classify_exception(exc)}', f'{text}: {type(exc).__name__}: {exc}', case)
-        return
+        return False
     lo = open_ or datetime.date.min
     hi = close if isinstance(close, datetime.date) else datetime.date.max
     inside = [t for t in txns if lo <= t.date < hi]
@@ -123,7 +141,7 @@ def run_case(ctx, n):
         out = [t.date for t in returned_orig if not (lo <= t.date < hi)]
         ctx.violation('c13.original_transactions', f'{text}: original transactions returned {len(returned_orig)}, expected the {len(inside)} dated in '
                       f'[{lo}, {hi}); outside dates returned: {out[:3]}', case)
-        return
+        return False
     byid = {}
     for r in rows:
         byid.setdefault(r[1], []).append(r)
@@ -131,7 +149,7 @@ def run_case(ctx, n):
         got = byid.get(hash_entry(t), [])
         if [(g[2], g[3]) for g in got] != [(p.account, _position(p)) for p in t.postings] or any(g[0] is not t and g[0] != t for g in got):
             ctx.violation('c13.transaction_altered', f'{text}: transaction of {t.date} "{t.narration}" is altered or incomplete', case)
-            return
+            return False
     # 2. balance sheet accounts keep their balances; income statement accounts carry the period's activity
     types = bopts.get_account_types(options)
     got_inv = {}
@@ -153,13 +171,13 @@ def run_case(ctx, n):
             ctx.count('obs.balance_sheet_accounts_compared')
             if g != inv_of(full.get(a, [])):
                 ctx.violation('c13.balance_sheet_balance', f'{text}: {a} totals {g} over the returned rows; its balance in the full ledger as of {hi} is {inv_of(full.get(a, []))}', case)
-                return
+                return False
         elif root in (types.income, types.expenses):
             ctx.count('obs.income_statement_accounts_compared')
             exp = inv_of([]) if clear else inv_of(period.get(a, []))
             if g != exp:
                 ctx.violation('c13.income_statement_activity', f'{text}: {a} totals {g}; expected {exp} (activity in [{lo}, {hi}){", cleared" if clear else ""})', case)
-                return
+                return False
     # 3. every returned transaction still balances
     for t in seen_entries:
         res = interpolate.compute_residual(t.postings)
@@ -167,7 +185,7 @@ def run_case(ctx, n):
         ctx.count('obs.transactions_balance_checked')
         if not res.is_small(tol):
             ctx.violation('c13.transaction_does_not_balance', f'{text}: returned transaction {t.date} "{t.narration}" has residual {res}', case)
-            return
+            return False
     # 3b. with CLOSE the currency conversions are carried by Equity: the cost basis of everything returned sums to nothing
     from beancount.core import convert
     from decimal import Decimal
@@ -176,13 +194,13 @@ def run_case(ctx, n):
         total_weight.add_amount(r[6])
     if not total_weight.is_small(Decimal('1E-9')):
         ctx.violation('c13.result_does_not_balance', f'{text}: the weights of the returned postings total {total_weight}', case)
-        return
+        return False
     if close is not None:
         total_cost = inv_of([r[3] for r in rows]).reduce(convert.get_cost)
         ctx.count('obs.close_conversion_checks')
         if not total_cost.is_small(Decimal('1E-9')):
             ctx.violation('c13.close_leaves_conversion_imbalance', f'{text}: after CLOSE the cost basis of the returned postings totals {total_cost}, not carried by Equity', case)
-            return
+            return False
     # 4. the clauses apply independently of the filter expression
     ftext, fpy = rng.choice(FILTERS)
     with_from = f'SELECT id, account, position, date FROM {clause_text(open_, close, clear, ftext)}'
@@ -192,30 +210,30 @@ def run_case(ctx, n):
         b = conn.execute(with_where).fetchall()
     except Exception as exc:  # noqa: BLE001
         ctx.violation(f'c13.filter_rejected', f'{with_from}: {exc!r}', case)
-        return
+        return False
     exp_rows = [(r[1], r[2], r[3], r[4]) for r in rows if fpy(r[0])]
     ctx.count('obs.filter_relations')
     if a != b or a != exp_rows:
         ctx.violation('c13.filter_not_independent', f'{with_from}: {len(a)} rows; filter in WHERE: {len(b)} rows; harness filter over the unfiltered result: {len(exp_rows)} rows', case)
-        return
+        return False
     # 5. BALANCES and PRINT see the same entries
     try:
         bal = conn.execute(f'BALANCES FROM {clauses}').fetchall()
     except Exception as exc:  # noqa: BLE001
         ctx.violation('c13.balances_rejected', f'BALANCES FROM {clauses}: {exc!r}', case)
-        return
+        return False
     expb = {a: inv_of(ps) for a, ps in got_inv.items()}
     ctx.count('obs.balances_route')
     if {a: i for a, i in bal} != expb:
         ctx.violation('c13.balances_route_differs', f'BALANCES FROM {clauses} differs from the per-account sums of the SELECT route', case)
-        return
+        return False
     from beanquery import compiler, query_execute
     out = io.StringIO()
     try:
         query_execute.execute_print(compiler.compile(conn, conn.parse(f'PRINT FROM {clauses}')), out)
     except Exception as exc:  # noqa: BLE001
         ctx.violation('c13.print_rejected', f'PRINT FROM {clauses}: {exc!r}', case)
-        return
+        return False
     from beancount.parser import parser as bparser
     pentries, perrs, _ = bparser.parse_string(out.getvalue())
     ptx = [(t.date, t.narration, tuple(p.account for p in t.postings)) for t in pentries if isinstance(t, data.Transaction)]
@@ -223,7 +241,7 @@ def run_case(ctx, n):
     ctx.count('obs.print_route')
     if ptx != stx:
         ctx.violation('c13.print_route_differs', f'PRINT FROM {clauses}: {len(ptx)} transactions printed, the SELECT route saw {len(stx)}', case)
-        return
+        return False
     # 6. CLOSE before OPEN is rejected at compile time
     if use_open:
         bad = f'SELECT account FROM OPEN ON {d} CLOSE ON {d - datetime.timedelta(days=rng.choice([1, 30]))}'
@@ -273,7 +291,7 @@ def finalize(merged):
         reasons.append(f'only {len(subsets)} of the clause subsets observed: {sorted(subsets)}')
     for k in ('obs.original_transactions_cut', 'obs.original_transactions_kept', 'obs.balance_sheet_accounts_compared',
               'obs.income_statement_accounts_compared', 'obs.filter_relations', 'obs.print_route', 'obs.balances_route',
-              'obs.close_before_open_rejected', 'obs.digest_comparisons'):
+              'obs.close_before_open_rejected', 'obs.digest_comparisons', 'obs.statements_on_shared_connection'):
         if c.get(k, 0) == 0:
             reasons.append(f'{k} == 0')
     return reasons
